@@ -251,6 +251,15 @@ Definition Inv (e0x e0y dx dy chx chy cntx cnty : nat) (ctext : list (tag * line
   old_side ctext = sub x chx dx /\ new_side ctext = sub y chy dy /\
   cntx = dx - chx /\ cnty = dy - chy.
 
+Lemma Inv_intro e0x e0y dx dy chx chy cntx cnty ctext :
+  dx <= length x -> dy <= length y ->
+  e0x <= chx -> chx <= dx -> e0y <= chy -> chy <= dy ->
+  chx - e0x = chy - e0y -> sub x e0x chx = sub y e0y chy ->
+  old_side ctext = sub x chx dx -> new_side ctext = sub y chy dy ->
+  cntx = dx - chx -> cnty = dy - chy ->
+  Inv e0x e0y dx dy chx chy cntx cnty ctext.
+Proof. unfold Inv. intuition. Qed.
+
 Lemma sub_empty_eq (l : list line) a b : a <= b -> b <= length l -> sub l a b = [] -> a = b.
 Proof. intros H1 H2 E. apply (f_equal (@length _)) in E. rewrite sub_length in E by lia. simpl in E. lia. Qed.
 
@@ -264,7 +273,7 @@ Proof.
   destruct HI as (I1 & I2 & I3 & I4 & I5 & I6 & I7 & I8 & I9 & I10 & I11 & I12).
   simpl.
   destruct (Nat.ltb_spec mx dx) as [Hlt | Hge].
-  { apply IH; [repeat split; assumption|]. eapply P_skip; eauto. }
+  { apply IH; [apply Inv_intro; assumption|]. eapply P_skip; eauto. }
   assert (Hm : mx <= length x /\ my <= length y /\ dy <= my).
   { destruct HP as (_ & _ & Hf & _). inversion Hf; subst. simpl in *. intuition. }
   destruct Hm as (M1 & M2 & M3).
@@ -296,7 +305,7 @@ Proof.
     { intro; subst ms. destruct HP as (_ & Hl & _). simpl in Hl. inversion Hl; subst mx my.
       apply orb_true_iff in Eeof as [E | E]; apply Nat.ltb_lt in E; lia. }
     apply IH.
-    + repeat split; try lia; try assumption.
+    + apply Inv_intro; try lia; try assumption.
       * rewrite old_side_app, old_side_ctx, O2. apply sub_app; lia.
       * rewrite new_side_app, new_side_ctx, N2, R. apply sub_app; lia.
     + eapply P_step; eauto.
@@ -350,7 +359,7 @@ Proof.
           { intro; subst ms. destruct HP as (_ & Hl & _). simpl in Hl. inversion Hl; subst mx my.
             apply Hneof. lia. }
           apply IH.
-          + repeat split; try lia.
+          + apply Inv_intro; try lia.
             * pose proof (sub_eq_mono x y stx ex sty ey n (ex - stx - ctxC) R) as E.
               replace (stx + (ex - stx - ctxC)) with (ex - ctxC) in E by lia.
               replace (sty + (ex - stx - ctxC)) with (ey - ctxC) in E by lia.
@@ -379,7 +388,7 @@ Proof.
       replace (e0y + (chx - e0x)) with chy by lia.
       replace (chx + (stx + n - chx)) with (stx + n) by lia.
       replace (chy + (sty + n - chy)) with (sty + n) by lia.
-      repeat split; auto.
+      split; [|split; [|split; [reflexivity|split; [reflexivity|split; [reflexivity|split; [reflexivity|exact Hr]]]]]].
       * rewrite app_assoc, (sub_app x e0x chx (stx + n)) by lia. apply skipn_sub; lia.
       * rewrite I8, app_assoc, (sub_app y e0y chy (sty + n)) by lia. apply skipn_sub; lia.
     + (* nothing to emit: ctext2 is empty, so done = start = chunk *)
@@ -411,7 +420,7 @@ Proof.
             (dy - sty + 0 + (ex - (ex - ctxC))) ([] ++ tagged TCtx (sub x (ex - ctxC) ex)) = Ok hs /\
           hunks_rel e0x e0y (skipn e0x x) (skipn e0y y) hs).
         { apply IH.
-          + repeat split; try lia.
+          + apply Inv_intro; try lia.
             * rewrite <- (sub_app x e0x stx (ex - ctxC)), <- (sub_app y e0y sty (ey - ctxC)) by lia.
               rewrite I8. f_equal.
               pose proof (sub_eq_mono x y stx ex sty ey 0 (ex - stx - ctxC) R) as E.
@@ -545,7 +554,7 @@ Lemma diff_loop_matches_ok x y ms : matches_ok x y ms ->
 Proof.
   intro H. apply matches_ok_P in H.
   destruct (diff_loop_ok x y ms 0 0 0 0 0 0 0 0 []) as (hs & E & R); [|assumption|].
-  - unfold Inv. rewrite !sub_nil. simpl. repeat split; lia.
+  - apply Inv_intro; rewrite ?sub_nil; simpl; try lia; reflexivity.
   - exists hs. split; assumption.
 Qed.
 
